@@ -61,6 +61,10 @@ def systematic_pool():
     add("left_rec_attr_chain", attr=Rule([Alt([n("v", ("rule", "name_or_attr")), C, n("a", ("NAME",))], "('attr', v)")]),
         name_or_attr=Rule([Alt([n("x", ("rule", "attr"))], "x"), Alt([n("x", ("NAME",))], "('n',)")], memo=True),
         top=Rule([Alt([n("x", ("rule", "attr"))], "('top', x)"), Alt([n("x", ("NAME",))], "('nm',)")]))
+    # round 5 (R5_C17_A): a component of three rules with two cycles through `top`; its alphabetically first member (`aside`) lies on one of them only
+    add("left_rec_two_cycles", top=Rule([Alt([n("m", ("rule", "aside")), A], "('T', m)"), Alt([n("z", ("rule", "zc")), C], "('Z', z)"), Alt([B], "('B',)")]),
+        aside=Rule([Alt([n("t", ("rule", "top")), C], "('M', t)"), Alt([C], "('C',)")]),
+        zc=Rule([Alt([n("t", ("rule", "top")), A], "('ZC', t)")]))
     add("left_rec_leader_memo", top=Rule([Alt([n("l", ("rule", "top")), A], "('L', l)"), Alt([B], "('B',)")], memo=True))
     add("rule_is_group_with_action", top=Rule([Alt([("group", [Alt([C, A]), Alt([B])])], "('t0',)")]))
     add("rule_is_group_without_action", top=Rule([Alt([("group", [Alt([C, A], "('ca',)"), Alt([B], "('b',)")])])]))
